@@ -1,5 +1,6 @@
 use crate::bo::*;
 use crate::replication_ops::*;
+use crate::security::SECURY_KEYS_PREFIX;
 use std::sync::Arc;
 
 pub const CONFLICTS_KEY: &'static str = "$conflicts";
@@ -55,7 +56,8 @@ impl Database {
                             }
                         }
                     }
-                    ConsensuStrategy::Arbiter => {
+                    // Conflicts in secure keys are never sent to an arbiter client, it would see their values
+                    ConsensuStrategy::Arbiter if !key.starts_with(SECURY_KEYS_PREFIX) => {
                         log::info!(
                             "Will resolve the conflitct in the key {} using Arbiter",
                             key
@@ -133,7 +135,7 @@ impl Database {
                             }
                         }
                     }
-                    ConsensuStrategy::None => {
+                    ConsensuStrategy::None | ConsensuStrategy::Arbiter => {
                         log::info!("Will resolve the conflict in the key {} using None", key);
                         Response::VersionError {
                             msg,
